@@ -158,6 +158,8 @@ impl Selector<Vec<IndS>> for Leaf {
 pub struct Allowed {
     pub may_ok: bool,
     pub errs: Vec<&'static str>,
+    /// for a tournament that is too large: (tournament size, population size) the error must carry
+    pub sizes: Option<(usize, usize)>,
 }
 
 pub fn leaf_allowed(kind: &LeafKind, pop: &[IndS]) -> Allowed {
@@ -165,37 +167,37 @@ pub fn leaf_allowed(kind: &LeafKind, pop: &[IndS]) -> Allowed {
     match kind {
         LeafKind::Best | LeafKind::Worst | LeafKind::Random => {
             if n == 0 {
-                Allowed { may_ok: false, errs: vec!["EmptyPopulation"] }
+                Allowed { may_ok: false, errs: vec!["EmptyPopulation"], sizes: None }
             } else {
-                Allowed { may_ok: true, errs: vec![] }
+                Allowed { may_ok: true, errs: vec![], sizes: None }
             }
         }
         LeafKind::Tournament(k) => {
             if *k > n {
-                Allowed { may_ok: false, errs: vec!["TournamentSizeError"] }
+                Allowed { may_ok: false, errs: vec!["TournamentSizeError"], sizes: Some((*k, n)) }
             } else {
-                Allowed { may_ok: true, errs: vec![] }
+                Allowed { may_ok: true, errs: vec![], sizes: None }
             }
         }
         LeafKind::Lexicase(c) => {
             if n == 0 {
-                Allowed { may_ok: false, errs: vec!["EmptyPopulation"] }
+                Allowed { may_ok: false, errs: vec!["EmptyPopulation"], sizes: None }
             } else {
                 let available = pop.iter().map(|i| i.test_results.results.len()).min().unwrap_or(0);
                 if *c <= available {
-                    Allowed { may_ok: true, errs: vec![] }
+                    Allowed { may_ok: true, errs: vec![], sizes: None }
                 } else {
                     // more cases configured than results available: a missing-case error
                     // may (but need not) occur
-                    Allowed { may_ok: true, errs: vec!["MissingTestCase"] }
+                    Allowed { may_ok: true, errs: vec!["MissingTestCase"], sizes: None }
                 }
             }
         }
         LeafKind::Marker(i) => {
             if *i < n {
-                Allowed { may_ok: true, errs: vec![] }
+                Allowed { may_ok: true, errs: vec![], sizes: None }
             } else {
-                Allowed { may_ok: false, errs: vec!["MarkerOutOfRange"] }
+                Allowed { may_ok: false, errs: vec!["MarkerOutOfRange"], sizes: None }
             }
         }
     }
